@@ -2,3 +2,4 @@ pub mod util;
 pub mod codec;
 pub mod obs;
 pub mod yata;
+pub mod ext;
